@@ -38,18 +38,20 @@ CONSTANTS MaxOverloads,   \* overloads per set
           IntVals2,       \* ... used in two-argument calls (subset of IntVals)
           ArgKinds,       \* non-integer argument kinds used, subset of OtherArgs
           Kinds,          \* subset of {"method", "static"}
+          NameModes,      \* subset of {"same", "alt"}: how the parameters of the overloads are named
           ConstMethods,   \* BOOLEAN: const-qualified methods in the alphabet
           Fixed           \* names of deviations repaired by a delivered patch (mechanism as intended)
 
 ---------------------------------------------------------------------------
 (* Categories *)
 AllCats == <<"i8", "u8", "i16", "u16", "i32", "u32", "il", "ul", "i64", "u64",
-             "f32", "f64", "bool", "str", "rA", "cA", "rB", "cB">>
+             "f32", "f64", "bool", "str", "rA", "cA", "rB", "cB", "rD", "cD">>
 CatSet == {AllCats[i] : i \in 1..Len(AllCats)}
 CatIx == [c \in CatSet |-> CHOOSE i \in 1..Len(AllCats) : AllCats[i] = c]
 IntCats == {"i8", "u8", "i16", "u16", "i32", "u32", "il", "ul", "i64", "u64"}
 FloatCats == {"f32", "f64"}
-InstCats == {"rA", "cA", "rB", "cB"}
+\* classes: A <- B <- D (a three-level chain), C unrelated
+InstCats == {"rA", "cA", "rB", "cB", "rD", "cD"}
 Arith == IntCats \cup FloatCats \cup {"bool"}
 
 (* index : value   1:-2^63-1  2:-2^63  3:-2^31-1  4:-2^31  5:-32769  6:-32768  7:-129  8:-128
@@ -66,7 +68,7 @@ InULong(v) == v \in 10..26
 
 \* Python type category of a parameter ("distinguishable by Python type category")
 PyCat(c) == CASE c \in IntCats -> "int" [] c \in FloatCats -> "float"
-              [] c \in {"rA", "cA"} -> "A" [] c \in {"rB", "cB"} -> "B" [] OTHER -> c
+              [] c \in {"rA", "cA"} -> "A" [] c \in {"rB", "cB"} -> "B" [] c \in {"rD", "cD"} -> "D" [] OTHER -> c
 
 OtherArgs == {"float", "bool", "str", "bytes", "none", "iA", "iB", "iD", "kA", "kB", "iC", "wrong"}
 IntArg(v) == [t |-> "int", v |-> v]
@@ -74,8 +76,13 @@ Args == {IntArg(v) : v \in IntVals} \cup {[t |-> k, v |-> 0] : k \in ArgKinds}
 
 ---------------------------------------------------------------------------
 (* The behaviour: an overload set *)
-VARIABLES S, kind, done
-vars == <<S, kind, done>>
+\* nm: "same" = every overload names its parameters (a, b); "alt" = overloads 2, 4, .. name them
+\* (x, y): keyword arguments then select among the overloads, and the generated code cannot
+\* extract a single argument by one common name
+VARIABLES S, kind, done, nm
+vars == <<S, kind, done, nm>>
+NameOf(j, i) == IF nm = "alt" /\ j % 2 = 0 THEN <<"x", "y">>[i] ELSE <<"a", "b">>[i]
+PosOfName(x) == CASE x \in {"a", "x"} -> 1 [] x \in {"b", "y"} -> 2 [] OTHER -> 0
 
 Key(o) == Len(o.p) * 100000
           + (IF Len(o.p) >= 1 THEN CatIx[o.p[1]] ELSE 0) * 2000
@@ -98,14 +105,14 @@ Distinguishable(T) ==
   \A n \in 0..MaxParams : \A j1, j2 \in 1..Len(T) :
      j1 < j2 /\ Accepts(T[j1], n) /\ Accepts(T[j2], n) => Sig(T[j1], n) # Sig(T[j2], n)
 
-Init == S = <<>> /\ kind \in Kinds /\ done = FALSE
+Init == S = <<>> /\ kind \in Kinds /\ done = FALSE /\ nm \in NameModes
 Add == /\ ~done /\ Len(S) < MaxOverloads
        /\ \E o \in Shapes(kind) :
             /\ o.d <= Len(o.p)
             /\ (Len(S) > 0 => Key(o) > Key(S[Len(S)]))
             /\ S' = Append(S, o)
-       /\ UNCHANGED <<kind, done>>
-Finish == ~done /\ Len(S) >= 1 /\ done' = TRUE /\ UNCHANGED <<S, kind>>
+       /\ UNCHANGED <<kind, done, nm>>
+Finish == ~done /\ Len(S) >= 1 /\ done' = TRUE /\ UNCHANGED <<S, kind, nm>>
 Next == Add \/ Finish
 Spec == Init /\ [][Next]_vars
 
@@ -122,7 +129,37 @@ Args2 == {a \in Args : a.t # "int" \/ a.v \in IntVals2}
 CallTuples(T) == {<<>>} \cup (IF MaxLen(T) >= 1 THEN [1..1 -> Args] ELSE {})
                   \cup (IF MaxLen(T) >= 2 THEN [1..2 -> Args2] ELSE {})
                   \cup {[i \in 1..(MaxLen(T) + 1) |-> IntArg(10)]}
-Calls(T, kd) == {[a |-> a, self |-> s] : a \in CallTuples(T), s \in Selfs(kd)}
+\* keyword calls: every argument is positional ("") or passed by a name: the right one, the name a
+\* sibling overload uses, the name of another parameter (a duplicate of a positional), an unknown one
+ArgsK == {a \in Args : a.t \in {"float", "str", "bool", "iA", "iB", "iD", "kA"} \/ (a.t = "int" /\ a.v = 10)}
+ArgsK2 == {a \in ArgsK : a.t \in {"int", "str", "iA", "float"}}
+KwPats1 == {<<"a">>, <<"x">>, <<"b">>, <<"zz">>}
+KwPats2 == {<<"", "b">>, <<"", "y">>, <<"", "a">>, <<"", "zz">>, <<"a", "b">>, <<"b", "a">>, <<"x", "y">>,
+            <<"a", "y">>, <<"a", "zz">>}
+KwCalls(T) == (IF MaxLen(T) >= 1 THEN {[a |-> a, kw |-> k] : a \in [1..1 -> ArgsK], k \in KwPats1} ELSE {})
+               \cup (IF MaxLen(T) >= 2 THEN {[a |-> a, kw |-> k] : a \in [1..2 -> ArgsK2], k \in KwPats2} ELSE {})
+Calls(T, kd) == {[a |-> a, kw |-> [i \in 1..Len(a) |-> ""], self |-> s] : a \in CallTuples(T), s \in Selfs(kd)}
+                  \cup {[a |-> c.a, kw |-> c.kw, self |-> s] : c \in KwCalls(T), s \in Selfs(kd)}
+HasKw(call) == \E i \in 1..Len(call.kw) : call.kw[i] # ""
+
+\* a call normalised to positions: arguments permuted by name, ok = the overloads whose parameter
+\* names the keywords are; st = "bad" (unknown or duplicate keyword, a required parameter missing:
+\* TypeError), "gap" (a defaulted parameter before a named one is left out: legal in Python, no
+\* C++ counterpart, no claim), "ok"
+Norm(T, call) ==
+  LET n == Len(call.a)
+      pos(i) == IF call.kw[i] = "" THEN i ELSE PosOfName(call.kw[i])
+      filled == {pos(i) : i \in 1..n}
+      binds(j) == \A i \in 1..n : call.kw[i] # "" => (pos(i) >= 1 /\ pos(i) <= Len(T[j].p) /\ NameOf(j, pos(i)) = call.kw[i])
+      ok == {j \in 1..Len(T) : binds(j)}
+      bad == (\E i \in 1..n : pos(i) = 0) \/ (\E i, j \in 1..n : i # j /\ pos(i) = pos(j))
+  IN IF ~HasKw(call) THEN [a |-> call.a, self |-> call.self, ok |-> 1..Len(T), st |-> "ok"]
+     ELSE IF bad THEN [a |-> <<>>, self |-> call.self, ok |-> {}, st |-> "bad"]
+     ELSE IF filled # 1..n THEN
+        [a |-> <<>>, self |-> call.self, ok |-> {},
+         st |-> IF \E j \in ok : filled \subseteq 1..Len(T[j].p) /\ 1..(Len(T[j].p) - T[j].d) \subseteq filled
+                  THEN "gap" ELSE "bad"]
+     ELSE [a |-> [q \in 1..n |-> call.a[CHOOSE i \in 1..n : pos(i) = q]], self |-> call.self, ok |-> ok, st |-> "ok"]
 
 N(call) == Len(call.a)
 SelfOK(o, self) == self # "c" \/ o.k          \* a const object only has its const methods
@@ -137,14 +174,15 @@ Corr(arg, c) ==
     [] arg.t = "float" -> c \in FloatCats
     [] arg.t = "str" -> c = "str"
     [] arg.t = "iA" -> c \in {"rA", "cA"}
-    [] arg.t \in {"iB", "iD"} -> c \in InstCats
+    [] arg.t = "iB" -> c \in {"rA", "cA", "rB", "cB"}
+    [] arg.t = "iD" -> c \in InstCats
     [] arg.t = "kA" -> c = "cA"
     [] arg.t = "kB" -> c \in {"cA", "cB"}
     [] OTHER -> FALSE
 
 CorrCands(T, call) ==
-  {j \in 1..Len(T) : /\ Accepts(T[j], N(call)) /\ SelfOK(T[j], call.self)
-                     /\ \A i \in 1..N(call) : Corr(call.a[i], T[j].p[i])}
+  {j \in 1..Len(T) \cap call.ok : /\ Accepts(T[j], N(call)) /\ SelfOK(T[j], call.self)
+                                   /\ \A i \in 1..N(call) : Corr(call.a[i], T[j].p[i])}
 
 \* type of a decimal literal of that value (int, long, unsigned long as g++ extends it)
 Lit(v) == IF v \in 4..20 THEN "i32" ELSE IF v \in 2..24 THEN "il" ELSE IF v \in 25..26 THEN "ul" ELSE "x"
@@ -176,7 +214,8 @@ ICS(ct, c) ==
   ELSE IF ct = "A" THEN (CASE c = "rA" -> <<1, 0, 0>> [] c = "cA" -> <<1, 0, 1>> [] OTHER -> <<0, 0, 0>>)
   ELSE IF ct = "B" THEN (CASE c = "rB" -> <<1, 0, 0>> [] c = "cB" -> <<1, 0, 1>>
                            [] c = "rA" -> <<3, 1, 0>> [] c = "cA" -> <<3, 1, 1>> [] OTHER -> <<0, 0, 0>>)
-  ELSE IF ct = "D" THEN (CASE c = "rB" -> <<3, 1, 0>> [] c = "cB" -> <<3, 1, 1>>
+  ELSE IF ct = "D" THEN (CASE c = "rD" -> <<1, 0, 0>> [] c = "cD" -> <<1, 0, 1>>
+                           [] c = "rB" -> <<3, 1, 0>> [] c = "cB" -> <<3, 1, 1>>
                            [] c = "rA" -> <<3, 2, 0>> [] c = "cA" -> <<3, 2, 1>> [] OTHER -> <<0, 0, 0>>)
   ELSE IF ct = "kA" THEN (IF c = "cA" THEN <<1, 0, 1>> ELSE <<0, 0, 0>>)
   ELSE IF ct = "kB" THEN (CASE c = "cB" -> <<1, 0, 1>> [] c = "cA" -> <<3, 1, 1>> [] OTHER -> <<0, 0, 0>>)
@@ -198,7 +237,7 @@ BetterCand(T, at, j1, j2) ==
 
 \* 0 = no viable function, -1 = ambiguous, else the index of the best viable function
 CppSelectT(T, call, at) ==
-  LET V == {j \in 1..Len(T) : /\ Accepts(T[j], N(call)) /\ SelfOK(T[j], call.self)
+  LET V == {j \in 1..Len(T) \cap call.ok : /\ Accepts(T[j], N(call)) /\ SelfOK(T[j], call.self)
                               /\ \A i \in 1..N(call) : ICSAt(T, at, j, i)[1] # 0}
       W == {j \in V : \A j2 \in V \ {j} : BetterCand(T, at, j, j2)}
   IN IF V = {} THEN 0 ELSE IF W = {} THEN -1 ELSE CHOOSE j \in W : TRUE
@@ -216,8 +255,8 @@ PyAccept(arg, c) ==
   \/ Corr(arg, c)
 
 Acceptable(T, call) ==
-  \E j \in 1..Len(T) : /\ Accepts(T[j], N(call)) /\ SelfOK(T[j], call.self)
-                       /\ \A i \in 1..N(call) : PyAccept(call.a[i], T[j].p[i])
+  \E j \in 1..Len(T) \cap call.ok : /\ Accepts(T[j], N(call)) /\ SelfOK(T[j], call.self)
+                                     /\ \A i \in 1..N(call) : PyAccept(call.a[i], T[j].p[i])
 \* some overload has, at the position of an integer argument, an integer parameter that cannot hold
 \* it (whatever the count): the rejected call may then report OverflowError instead of TypeError
 SomeIntOut(T, call) ==
@@ -225,7 +264,8 @@ SomeIntOut(T, call) ==
      call.a[i].t = "int" /\ T[j].p[i] \in IntCats /\ ~InRange(call.a[i].v, T[j].p[i])
 
 None == [k |-> "none", j |-> 0]
-Expected(T, call) ==
+\* reference for a normalised call
+ExpectedN(T, call) ==
   LET cc == CorrCands(T, call) IN
   IF cc # {} THEN
        LET at == ArgTypes(T, call) IN
@@ -237,6 +277,20 @@ Expected(T, call) ==
   ELSE IF ~Acceptable(T, call) THEN
        [k |-> (IF SomeIntOut(T, call) THEN "TypeOrOverflow" ELSE "TypeError"), j |-> 0]
   ELSE None
+
+\* the wrapper takes keyword arguments only if some overload has two parameters or a default
+KwCapable(T) == \E j \in 1..Len(T) : Len(T[j].p) >= 2 \/ T[j].d > 0
+
+\* reference for any call: an unknown or duplicate keyword is a TypeError, otherwise the call is the
+\* positional call with the arguments permuted by name, among the overloads that have these names
+Expected(T, call) ==
+  LET nc == Norm(T, call) IN
+  IF nc.st = "bad" THEN [k |-> "TypeError", j |-> 0]
+  ELSE IF nc.st = "gap" THEN None
+  \* functions none of whose overloads has two parameters or a default are positional-only by
+  \* design (METH_NOARGS / METH_O / METH_VARARGS): no claim about naming their parameter
+  ELSE IF HasKw(call) /\ ~KwCapable(T) THEN None
+  ELSE ExpectedN(T, nc)
 
 ---------------------------------------------------------------------------
 (* MECHANISM *)
@@ -263,7 +317,7 @@ Groups(T) == {[lo |-> Bot(T), hi |-> Top(T), R |-> MapSet(T, Bot(T))]}
 \* get_type_sort
 TS(c) == CASE c = "str" -> 9 [] c = "u64" -> 7 [] c = "i64" -> 6 [] c \in IntCats -> 5
            [] c = "f64" -> 4 [] c = "f32" -> 3 [] c = "bool" -> 1
-           [] c \in {"rA", "cA"} -> 20 [] c \in {"rB", "cB"} -> 40
+           [] c \in {"rA", "cA"} -> 20 [] c \in {"rB", "cB"} -> 40 [] c \in {"rD", "cD"} -> 60
 
 \* RemapCompareLess (the this parameter is the same for all remaps of a method)
 RECURSIVE LessFrom(_, _, _)
@@ -346,7 +400,8 @@ Try(o, call, g, mode) ==
 RECURSIVE Pass(_, _, _, _, _, _)
 Pass(T, call, g, mode, ord, x) ==
   IF x > Len(ord) THEN [k |-> "TypeError", j |-> 0]
-  ELSE LET r == Try(T[ord[x]], call, g, mode) IN
+  \* a remap whose parameter names are not the keywords of the call fails its parse
+  ELSE LET r == IF ord[x] \notin call.ok THEN "fail" ELSE Try(T[ord[x]], call, g, mode) IN
        CASE r \in {"run", "runwrap"} -> [k |-> r, j |-> ord[x]]
          [] r = "runpend" -> [k |-> "OverflowAfterRun", j |-> ord[x]]
          [] r = "raise" -> [k |-> "OverflowError", j |-> 0]
@@ -362,14 +417,28 @@ GroupForC(cx, n) == IF ~cx.switch THEN cx.G                       \* no switch: 
                     ELSE {g \in cx.G : n >= g.lo /\ n <= g.hi}
 GroupFor(T, n) == GroupForC(SetCtx(T), n)
 
-PySelect(T, call, ord, g) ==
-  Pass(T, call, g, IF g.lo = 1 /\ g.hi = 1 THEN "single" ELSE "var", ord, 1)
+\* a group serving exactly one argument extracts it once for all its remaps (type checks instead of
+\* a parse: "single") only if they all give their parameter the same name; else every remap parses
+\* the tuple and the keywords itself ("var")
+ModeOf(T, g) == IF g.lo = 1 /\ g.hi = 1 /\ (~KwCapable(T) \/ Cardinality({NameOf(j, 1) : j \in g.R}) = 1)
+                  THEN "single" ELSE "var"
+PySelect(T, call, ord, g) == Pass(T, call, g, ModeOf(T, g), ord, 1)
 
-\* all results the mechanism can produce for the call (one per admissible sort order)
-PyResultsC(T, call, cx) ==
+\* all results the mechanism can produce for a normalised call (one per admissible sort order)
+PyResultsN(T, call, cx) ==
   LET GG == GroupForC(cx, N(call)) IN
   IF GG = {} THEN {[k |-> "TypeError", j |-> 0]}
   ELSE LET g == CHOOSE x \in GG : TRUE IN {PySelect(T, call, ord, g) : ord \in cx.ord[g]}
+
+\* ... for any call.  Functions that are not KwCapable take no keywords at all; the single-argument
+\* extraction (Dtool_ExtractArg) accepts one positional argument or one keyword of the common name
+TErr == {[k |-> "TypeError", j |-> 0]}
+PyResultsC(T, call, cx) ==
+  LET nc == Norm(T, call) IN
+  IF ~HasKw(call) THEN PyResultsN(T, nc, cx)
+  ELSE IF ~KwCapable(T) THEN TErr
+  ELSE IF nc.st # "ok" THEN TErr           \* ("gap" calls are not modelled: no claim, not compared)
+  ELSE PyResultsN(T, nc, cx)
 PyResults(T, call) == PyResultsC(T, call, SetCtx(T))
 
 ---------------------------------------------------------------------------
@@ -379,13 +448,12 @@ PyResults(T, call) == PyResultsC(T, call, SetCtx(T))
    as intended and the class is empty). *)
 NoGroup == [lo |-> 0, hi |-> -1, R |-> {}]
 GRC(cx, call) == LET GG == GroupForC(cx, N(call)) IN IF GG = {} THEN NoGroup ELSE CHOOSE x \in GG : TRUE
-ModeOf(g) == IF g.lo = 1 /\ g.hi = 1 THEN "single" ELSE "var"
 \* the remaps of the group that the self object may use, and the parameter positions the call fills
 Pos(T, call, j) == 1..Min2(N(call), Len(T[j].p))
 
 DevClassesC(T, call, cx) ==
   LET g == GRC(cx, call)
-      mode == ModeOf(g)
+      mode == ModeOf(T, g)
       R == {j \in g.R : SelfOK(T[j], call.self)}
       IntAt(j, i) == call.a[i].t = "int" /\ T[j].p[i] \in IntCats
       v(i) == call.a[i].v
@@ -452,7 +520,7 @@ DevClassesC(T, call, cx) ==
   (IF "extra-args" \notin Fixed /\ N(call) > 0 /\ g.lo < g.hi /\ \E j \in R : Len(T[j].p) = 0
      THEN {"C02-extra-arguments-ignored"} ELSE {})
 
-DevC(T, call, cx) == DevClassesC(T, call, cx)
+DevC(T, call, cx) == LET nc == Norm(T, call) IN IF nc.st # "ok" THEN {} ELSE DevClassesC(T, nc, cx)
 Dev(T, call) == DevC(T, call, SetCtx(T))
 
 Agree(m, e) ==
